@@ -1142,12 +1142,33 @@ where
                 done,
             } => {
                 let max_idx = new_entries.last().map(|e| e.index).unwrap_or(0);
+                // Entries below truncate_from that were appended but not yet handed to the store
+                // must land first: otherwise the replacement sits above a hole until the next
+                // write wakeup, and a crash in between leaves an index gap on disk.
+                let unpersisted_from =
+                    (*pending_max).max(this.durable_index.load(Ordering::Acquire)) + 1;
+                if unpersisted_from < truncate_from
+                    && let Ok(below) = this.get_entries_range(unpersisted_from..=truncate_from - 1)
+                    && !below.is_empty()
+                    && this.log_store.persist_entries(below).await.is_ok()
+                {
+                    *pending_max = (*pending_max).max(truncate_from - 1);
+                }
                 let result = this.log_store.replace_range(truncate_from, new_entries).await;
                 if let Err(ref e) = result {
                     error!("IOTask::ReplaceRange failed (fatal): {e:?}");
                     let _ = done.send(result);
                     return true; // signal batch_processor to exit — disk state is corrupted
                 }
+                // Everything at or above truncate_from was replaced: neither the durable mark nor
+                // the page-cache watermark may keep pointing at removed entries. Without lowering
+                // the mark, entries re-appended in (new_last, old_durable] are never handed to
+                // the store (the write wakeup reads from durable_index + 1) and are reported
+                // durable while not persisted. Done here, in IO-thread order, so that an fsync
+                // of the old entries that completed concurrently cannot raise it again.
+                this.durable_index
+                    .fetch_min(truncate_from.saturating_sub(1), Ordering::AcqRel);
+                *pending_max = (*pending_max).min(truncate_from.saturating_sub(1));
                 if max_idx > 0 {
                     *pending_max = (*pending_max).max(max_idx);
                 }
@@ -1162,6 +1183,9 @@ where
             IOTask::Reset { done } => {
                 let result = this.log_store.reset().await;
                 *pending_max = 0; // disk wiped — pending page-cache watermark must be zeroed
+                // An fsync of pre-reset entries may have advanced the mark after reset_internal
+                // zeroed it; nothing on disk is durable now.
+                this.durable_index.store(0, Ordering::Release);
                 let _ = done.send(result);
                 false
             }
